@@ -2,6 +2,7 @@
 import gzip
 import os
 from protocol import Exc
+import probe
 from debian_inspector import contents
 
 ID = 'C18'
@@ -78,7 +79,8 @@ def observe(op, inp):
             f.write(text.encode('utf-8'))
         for loc in (base, base + '.gz'):
             try:
-                out.append(dicts(contents.parse_contents(loc, has_header=has_header)))
+                out.append(probe.twice(lambda: contents.parse_contents(loc, has_header=has_header), dicts,
+                                       lambda r: [(m.clear(), m.__setitem__('zz-scrambled', ['zz'])) for m in r]))
             except Exception as e:
                 out.append(Exc(type(e).__name__))
     finally:
@@ -138,7 +140,8 @@ def extra(tier, rng):
             out = []
             for loc in (base, base + '.gz'):
                 try:
-                    out.append(dicts(contents.parse_contents(loc, has_header=has_header)))
+                    out.append(probe.twice(lambda: contents.parse_contents(loc, has_header=has_header), dicts,
+                                       lambda r: [(m.clear(), m.__setitem__('zz-scrambled', ['zz'])) for m in r]))
                 except Exception as e:
                     out.append(Exc(type(e).__name__))
             done += 1
